@@ -57,6 +57,17 @@ TOPOLOGIES = {
                                         E('helical', n=10, J=1e-6, helix=15.0), E('helical', n=35, J=3e-5, helix=15.0),
                                         E('spur', n=12, J=2e-6), E('spur', n=48, J=8e-5)],
                links=[('joint',), ('joint',), ('worm', 0.05), ('joint',), ('mate', 0.9), ('joint',), ('mate', 0.95)]),
+    # two worm stages: the self-locking one first (T8) / last (T9)
+    'T8': dict(motor=MOTOR_B, elements=[E('worm', starts=1, J=1e-6, helix=10.0, pa=20.0),
+                                        E('wheel', n=20, J=2e-5, helix=10.0, pa=20.0),
+                                        E('worm', starts=2, J=1e-6, helix=20.0, pa=20.0),
+                                        E('wheel', n=16, J=4e-5, helix=20.0, pa=20.0)],
+               links=[('joint',), ('worm', 0.4), ('joint',), ('worm', 0.05)]),
+    'T9': dict(motor=MOTOR_B, elements=[E('worm', starts=2, J=1e-6, helix=20.0, pa=20.0),
+                                        E('wheel', n=16, J=2e-5, helix=20.0, pa=20.0),
+                                        E('worm', starts=1, J=1e-6, helix=10.0, pa=20.0),
+                                        E('wheel', n=20, J=4e-5, helix=10.0, pa=20.0)],
+               links=[('joint',), ('worm', 0.05), ('joint',), ('worm', 0.4)]),
     # self-locking train with gears after the wheel (C13)
     'T7': dict(motor=MOTOR_B, elements=[E('worm', starts=1, J=1e-6, helix=5.0, pa=14.5),
                                         E('wheel', n=30, J=5e-5, helix=5.0, pa=14.5),
